@@ -524,6 +524,22 @@ impl<'tcx> Cx<'tcx> {
         v.push(("parent", J::s(self.did(parent.to_def_id()))));
         v.push(("parent_kind", J::s(format!("{:?}", tcx.def_kind(parent)))));
         v.push(("generics", self.generics_j(d)));
+        // trait bounds on type parameters: [param, trait]
+        {
+            let mut bounds = Vec::new();
+            let preds = tcx.predicates_of(d).instantiate_identity(tcx);
+            for clause in preds.predicates.iter() {
+                let clause = clause.skip_norm_wip();
+                if let Some(tp) = clause.as_trait_clause() {
+                    let tp = tp.skip_binder();
+                    let self_ty = tp.trait_ref.self_ty();
+                    if let ty::Param(p) = self_ty.kind() {
+                        bounds.push(J::Arr(vec![J::s(p.name.to_string()), J::s(self.dname(tp.trait_ref.def_id))]));
+                    }
+                }
+            }
+            v.push(("bounds", J::Arr(bounds)));
+        }
         if matches!(kind, DefKind::Fn | DefKind::AssocFn) {
             let sig = tcx.fn_sig(d).skip_binder().skip_binder();
             v.push(("unsafe", J::Bool(sig.safety().is_unsafe())));
